@@ -60,6 +60,10 @@ func Set(m Model) {
 		p.srv.Close()
 		delete(udpPeers, c)
 	}
+	for a, p := range sinks {
+		p.srv.Close()
+		delete(sinks, a)
+	}
 }
 
 // EmitLog returns the emit log of the current run.
@@ -133,6 +137,11 @@ func OpaqueBytes(name string, lo, hi int) []byte { return []byte(OpaqueString(na
 // = sequence of byte terms and opaque chunks of symbolic length).  No-op natively.
 func AbstractBuffers() {}
 
+// HashInjective: harness assumption that the modelled hash functions do not
+// collide on the different inputs hashed in this run (true of the real hashes for
+// every input anybody has found; the engine otherwise treats them as arbitrary).
+func HashInjective() {}
+
 // ---- UDP connection: under the engine a model (datagram log, send faults at
 // the harness's request); natively a real loop-back socket pair.
 
@@ -187,6 +196,51 @@ func drain(c *net.UDPConn) *udpPeer {
 	}
 	return p
 }
+
+// ---- sinks: a destination address to hand to code that dials by itself ----------
+
+var sinks = map[string]*udpPeer{}
+
+// NewUDPSink returns the address of a fresh destination (natively a loop-back listener).
+func NewUDPSink() string {
+	srv, err := net.ListenUDP("udp", &net.UDPAddr{IP: net.IPv4(127, 0, 0, 1)})
+	if err != nil {
+		panic(err)
+	}
+	srv.SetReadBuffer(8 << 20)
+	mu.Lock()
+	sinks[srv.LocalAddr().String()] = &udpPeer{srv: srv}
+	mu.Unlock()
+	return srv.LocalAddr().String()
+}
+
+func drainSink(addr string) *udpPeer {
+	mu.Lock()
+	p := sinks[addr]
+	mu.Unlock()
+	if p == nil {
+		panic("verifrt: unknown sink " + addr)
+	}
+	buf := make([]byte, 70000)
+	for {
+		p.srv.SetReadDeadline(time.Now().Add(30 * time.Millisecond))
+		n, _, err := p.srv.ReadFromUDP(buf)
+		if err != nil {
+			break
+		}
+		p.got = append(p.got, append([]byte{}, buf[:n]...))
+	}
+	return p
+}
+
+// SinkDatagrams returns the number of datagrams that arrived at the sink.
+func SinkDatagrams(addr string) int { return len(drainSink(addr).got) }
+
+// SinkDatagram returns datagram i of the sink.
+func SinkDatagram(addr string, i int) string { return string(drainSink(addr).got[i]) }
+
+// SinkFault is not available natively for dialled connections (no-op).
+func SinkFault(addr string, fail bool) {}
 
 // Datagrams returns the number of datagrams sent on c so far.
 func Datagrams(c *net.UDPConn) int { return len(drain(c).got) }
@@ -272,11 +326,15 @@ func EmitB(tag string, b bool)    { emit(fmt.Sprintf("%s|%v", tag, b)) }
 
 func Explore(preemptions int) {}
 func StopExplore()            {}
-func PermuteMaps(maxSize int) {}
-func LiveThreads() int        { return 0 }
-func Yield()                  {}
-func WaitIdle()               {}
-func SetTicks(n int)          {}
+
+// ExploreOnly restricts preemption points to synchronisation operations issued (directly or
+// through library code) by functions of packages whose import path ends with a given suffix.
+func ExploreOnly(pkgSuffixes ...string) {}
+func PermuteMaps(maxSize int)           {}
+func LiveThreads() int                  { return 0 }
+func Yield()                            {}
+func WaitIdle()                         {}
+func SetTicks(n int)                    {}
 
 func Float64bits(f float64) uint64     { return math.Float64bits(f) }
 func Float64frombits(u uint64) float64 { return math.Float64frombits(u) }
